@@ -1,8 +1,8 @@
 SPECIFICATION Spec
 CONSTANTS
-  N = 3
+  N = 2
   MaxSeeds = 2
   BugSeedsNotDeduplicated = FALSE
-  BugSeenBeforeAccepted = FALSE
+  BugSeenBeforeAccepted = TRUE
 INVARIANTS NeverTwice Complete
 PROPERTY Terminates
